@@ -315,6 +315,28 @@ def main():
            ("ok-plain", "fa > y", "accept", False, R), ("tag-on-untagged", "fa > y:T", "refuse", False, R), ("ok-ctx", "fa(x) > y", "accept", False, R),
            ("ok-wrap", "fa(!x, !!y)", "accept", False, R), ("ok-override", "fa > y", "accept", True, R),
            ("ok-loopvar-unknown", "fa > #loop_zz", "refuse", False, R), ("list-selector", "fa, fa", "refuse", False, ["SyntaxError", "SelectorError"])]
+    # a refusal next to a value condition of every kind (the refusal message spells the whole selector out): matcher objects
+    # without a __name__ (ptera.tools, functools.partial), plain functions, values
+    import functools
+    from ptera import tools as _tools
+    env.update({"every": _tools.every, "between": _tools.between, "lt": _tools.lt, "part": functools.partial(lambda a, b: a < b, 0),
+                "positive": (lambda v: v > 0)})
+    for cname, cond in [("match-object", "x~every(2)"), ("match-object2", "x~between(1, 3)"), ("match-partial", "x~part"),
+                        ("match-function", "x~positive"), ("match-value-call", "x=every(2)"), ("match-string", "x='s'")]:
+        SEL += [(f"ok+{cname}", f"fa({cond}) > y", "accept", False, R),
+                (f"unknown-meta+{cname}", f"fa({cond}) > #nope", "refuse", False, R),
+                (f"unknown-variable+{cname}", f"fa({cond}) > nothere", "refuse", False, R),
+                (f"tag-on-untagged+{cname}", f"fa({cond}) > y:T", "refuse", False, R),
+                (f"unknown-meta+{cname}@child", f"ga > fa({cond}) > #nope", "refuse", False, R),
+                (f"unknown-meta-cond+{cname}", f"fa(#nope, {cond}) > y", "refuse", False, R)]
+    # keywords inside the calls of a condition value: a chained keyword is not a keyword
+    KW = ["SyntaxError", "SelectorError"]
+    SEL += [("ok-keyword-value", "fa(x~between(start=1, end=3)) > y", "accept", False, R),
+            ("chained-keyword", "fa(x~between(start=end=3)) > y", "refuse", False, KW),
+            ("chained-keyword-nested", "fa(x=every(lt(start=end=3))) > y", "refuse", False, KW),
+            ("chained-keyword-focus", "fa > y~between(start=end=3)", "refuse", False, KW),
+            ("chained-keyword@child", "ga > fa(x~between(start=end=3)) > y", "refuse", False, KW),
+            ("keyword-not-a-name", "fa(x~between(lt(2)=1)) > y", "refuse", False, KW)]
     # every kind of malformation at every position of a call path (ga calls fa)
     def ga(u):
         w = fa(u) + 1
